@@ -405,7 +405,13 @@ def m_from_hms_opt(ex, site, a):
     good = zand([ule(h, 23), ule(mi, 59), ule(s, 59), ule(frac, lim)])
     if not ex.branch(good): return none()
     ns = frac * scale if not is_sym(frac) else zz(frac) * scale
-    if not is_sym(ns) and ns >= 1000000000 and not (not is_sym(s) and s == 59): return none()
+    if not is_sym(ns) and not is_sym(s):
+        if ns >= 1000000000 and s != 59: return none()
+    elif lim:
+        # a fraction of a second or more denotes a leap second and is accepted only with sec == 59
+        nsz = ns if is_sym(ns) else z3.BitVecVal(ns, 32)
+        sz = s if is_sym(s) else z3.BitVecVal(s, 32)
+        if not ex.branch(z3.Or(z3.ULT(nsz, 1000000000), sz == 59)): return none()
     return some(nt(h, mi, s, ns))
 
 
@@ -547,6 +553,10 @@ def m_with_timezone(ex, site, a):
 
 @model('DateTime::naive_local')
 def m_naive_local(ex, site, a): return deref(ex, a[0]).fields[0]
+@model('DateTime::date_naive')
+def m_date_naive(ex, site, a): return deref(ex, a[0]).fields[0].fields[0]     # the date of the local view
+
+
 @model('DateTime::naive_utc')
 def m_naive_utc(ex, site, a):
     dt = deref(ex, a[0]); return shift_naive(dt.fields[0], -sx(dt.fields[1]) if is_sym(dt.fields[1]) else -dt.fields[1])
